@@ -1325,8 +1325,7 @@ def _make_type_verifier(dataType, nullable=True, name=None):
 
     def verify_acceptable_types(obj):
         # subclass of them can not be fromInternal in JVM
-        convertible_types = tuple(_acceptable_types[_type])
-        if not isinstance(obj, convertible_types):
+        if type(obj) not in _acceptable_types[_type]:
             raise TypeError(new_msg(f"{dataType} can not accept object {repr(obj)} in type {type(obj)}"))
 
     verify_value = get_verifier(
